@@ -69,7 +69,7 @@ META = {
  "C10": dict(
   technique="Lean 4 proof (soundness of the validator model clause by clause: returns, link validator passes, body/form exclusion; injectivity of the {name} <-> @Path link by induction over the validator's passes; cross-layer theorems connecting the validators, the reducer and the url template: an accepted route's reduced path parameters are, one to one, the {names} of the full template; `blocks` decided on regenerated call skeletons) + differential correspondence of real diagnostics on generated and perturbed projects",
   text="Acceptance implies the well-linkedness clauses (returns error/(T,error), every binding references a non-context parameter, every parameter referenced, every {name} of the FULL template - controller prefix + the method's first @Route - bound, {names} and URL names pairwise distinct, aliases name {names}, one body at most and never with form fields) as Lean theorems over the validator model for all methods; `accepted_route_path_params_partial` carries this through the reducer model to the path parameters the emitters document. That an error diagnostic blocks all output is decided on call skeletons regenerated from pipeline.go and entrypoint.go. The model is tied to the real validators by exact equality of the diagnostic multisets on generated projects incl. all single/double perturbations (30 kinds), and the property's own definition is evaluated against the real verdict per route.",
-  note="Partial: the completeness direction (well-linked => accepted) is checked per case, not proved; the inclusion 'every un-aliased @Path names a {name}' is hypothesis hF2 of the bijection theorems = open finding C10-F2 (its repair is pinned away by test/diagnostics). Fixed: C10-F1, F3 (prefix parameters), F4 (last vs first @Route), F5 (URL-name collision), F6 (context bound by an annotation) - the last three found by the proof attempts.",
+  note="The completeness direction is proved for the link validator (`wellLinked_accepted`) and checked per case for the other validators; the inclusion 'every un-aliased @Path names a {name}' is hypothesis hF2 of the bijection theorems = open finding C10-F2 (its repair is pinned away by test/diagnostics). Fixed: C10-F1, F3 (prefix parameters), F4 (last vs first @Route), F5 (URL-name collision), F6 (context bound by an annotation) - the last three found by the proof attempts.",
  ),
  "C18": dict(
   technique="Lean 4 proof (first-occurrence search: a found range covers text equal to the value, lies inside the text, start<=end, and exists for every contiguous value - rune arithmetic for all texts) + source-slicing correspondence on real diagnostics",
